@@ -307,12 +307,42 @@ func smap(p value) map[any]value {
 
 func smKey(v value) any {
 	if i, ok := v.(iface); ok {
-		switch k := i.v.(type) {
-		case string, int, int64, int32, bool:
-			return k
+		if k, ok := smConcrete(i.v); ok {
+			return i.t.String() + "\x00" + k
 		}
 	}
-	panic(pathUnsupported{"sync.Map key that is not a concrete string / integer"})
+	panic(pathUnsupported{"sync.Map key that is not a concrete string / integer / struct of those"})
+}
+
+// smConcrete renders a concrete comparable value (basic values and structs / arrays of them) as a canonical string.
+func smConcrete(v value) (string, bool) {
+	switch k := v.(type) {
+	case string:
+		return fmt.Sprintf("s%d:%s", len(k), k), true
+	case bool, int, int8, int16, int32, int64, uint, uint8, uint16, uint32, uint64, uintptr:
+		return fmt.Sprintf("%T:%v", k, k), true
+	case structure:
+		out := "{"
+		for _, f := range k {
+			c, ok := smConcrete(f)
+			if !ok {
+				return "", false
+			}
+			out += c + ","
+		}
+		return out + "}", true
+	case array:
+		out := "["
+		for _, f := range k {
+			c, ok := smConcrete(f)
+			if !ok {
+				return "", false
+			}
+			out += c + ","
+		}
+		return out + "]", true
+	}
+	return "", false
 }
 
 func smLoadOrStore(fr *frame, a []value) value {
